@@ -11,6 +11,7 @@ import (
 	"fmt"
 	"hash/fnv"
 	"os"
+	"runtime"
 	"sort"
 	"strconv"
 	"strings"
@@ -117,6 +118,12 @@ func (r *Result) ReplayCase() json.RawMessage { return r.replay }
 // Expired reports that the internal deadline passed; the caller stops and the run is reported
 // as not exhaustive (never as a violation).
 func (r *Result) Expired() bool {
+	if memoryGuard() {
+		// a tree under test that leaks (writers never closed, goroutines never ended) must end as a short run
+		// that still reports what it found, not as a process the kernel kills
+		r.Cap(fmt.Sprintf("memory guard: more than %d MiB of live heap, the run stops here", memLimitMiB()))
+		return true
+	}
 	if r.deadline.IsZero() {
 		return false
 	}
@@ -125,6 +132,43 @@ func (r *Result) Expired() bool {
 		return true
 	}
 	return false
+}
+
+var (
+	memMu      sync.Mutex
+	memLast    time.Time
+	memTripped bool
+)
+
+func memLimitMiB() uint64 {
+	if v, err := strconv.Atoi(os.Getenv("VERIF_MEM_LIMIT_MB")); err == nil && v > 0 {
+		return uint64(v)
+	}
+	return 2048
+}
+
+// memoryGuard samples the heap at most every 300 ms; once tripped it stays tripped.
+func memoryGuard() bool {
+	memMu.Lock()
+	defer memMu.Unlock()
+	if memTripped {
+		return true
+	}
+	if time.Since(memLast) < 300*time.Millisecond {
+		return false
+	}
+	memLast = time.Now()
+	var ms runtime.MemStats
+	runtime.ReadMemStats(&ms)
+	if ms.HeapAlloc > memLimitMiB()<<20 {
+		// garbage may account for it: collect once before deciding
+		runtime.GC()
+		runtime.ReadMemStats(&ms)
+		if ms.HeapAlloc > memLimitMiB()<<20 {
+			memTripped = true
+		}
+	}
+	return memTripped
 }
 
 func (r *Result) Cap(what string) {
